@@ -43,7 +43,8 @@ def generic_main(mod, modname, pid, tier, seed, repo, t0):
     tasks = list(mod.tasks(tier, seed))
     budget = getattr(mod, "BUDGET_S", {"quick": 240, "thorough": 2400})[tier]
     opts_base = {"timeout_ms": getattr(mod, "TIMEOUT_MS", {"quick": 10000, "thorough": 120000})[tier],
-                 "max_depth": getattr(mod, "MAX_DEPTH", 400), "max_paths": getattr(mod, "MAX_PATHS", 20000)}
+                 "max_depth": getattr(mod, "MAX_DEPTH", 400), "max_paths": getattr(mod, "MAX_PATHS", 20000),
+                 "max_task_s": getattr(mod, "MAX_TASK_S", {"quick": 40, "thorough": 600})[tier]}
     n_canary = getattr(mod, "CANARY_TASKS", 3)
     n_x = getattr(mod, "XCHECK_TASKS", 6)
     xs = set(range(min(2, len(tasks))))
@@ -74,7 +75,9 @@ def generic_main(mod, modname, pid, tier, seed, repo, t0):
                 r = it.next(timeout=max(1.0, remaining))
             except mp.TimeoutError:
                 skipped = len(jobs) - len(results)
-                log(f"[{pid}] wall budget {budget}s reached: {skipped} tasks not finished (reported, not counted)")
+                donek = {r.get("key") for r in results}
+                log(f"[{pid}] wall budget {budget}s reached: {skipped} tasks not finished (reported, not counted): "
+                    + "; ".join(j[1]["key"] for j in jobs if j[1]["key"] not in donek)[:600])
                 pool.terminate()
                 break
             results.append(r)
@@ -101,6 +104,7 @@ def finish(mod, modname, pid, tier, seed, repo, t0, results, skipped, heavy, n_j
         tot["queries"] += st.get("queries", 0)
         tot["solver_s"] += st.get("solver_s", 0.0)
         tot["paths_cut"] += st.get("paths_cut", 0)
+        tot["tasks_time_cut"] = tot.get("tasks_time_cut", 0) + (1 if st.get("task_time_budget_exhausted") else 0)
         tot["branch_points"] += st.get("branch_points", 0)
         funcs |= set(r.get("functions", []))
         for v in r["violations"]:
@@ -205,7 +209,7 @@ def finish(mod, modname, pid, tier, seed, repo, t0, results, skipped, heavy, n_j
                 "non-trivial = the claim did not simplify to true syntactically before the solver was called; "
                 "tasks are distinct structural skeletons (see bounds), so obligations are distinct by construction",
         "obligations": tot["obligations"], "discharged": tot["discharged"], "unknown_inconclusive": tot["unknown"],
-        "paths": tot["paths"], "paths_cut_by_budget": tot["paths_cut"], "tasks": n_jobs, "tasks_finished": len(results),
+        "paths": tot["paths"], "paths_cut_by_budget": tot["paths_cut"], "tasks_cut_by_task_time_budget": tot.get("tasks_time_cut", 0), "tasks": n_jobs, "tasks_finished": len(results),
         "tasks_skipped_by_wall_budget": skipped, "tasks_vacuous": tot["vacuous"], "tasks_harness_error": len(herr),
         "solver": "z3 " + _z3v(), "solver_queries": tot["queries"], "solver_seconds": round(tot["solver_s"], 3),
         "functions_encoded": sorted(funcs), "bounds": getattr(mod, "bounds_text", lambda t: "")(tier),
